@@ -263,9 +263,9 @@ func exportDiff(d m15.D, got interface{}) string {
 		}
 		d = sd
 	}
-	if d.T == "nil" {
-		if got != nil {
-			return fmt.Sprintf("nil exported as %#v", got)
+	if d.T == "nil" || (m15.Shape(d.T) == "ptr" && d.Nil) { // nil pointers of every type become undefined
+		if got != nil && !(reflect.TypeOf(got) == m15.TypeOf(d.T) && reflect.ValueOf(got).IsNil()) {
+			return fmt.Sprintf("nil %s exported as %#v", d.T, got)
 		}
 		return ""
 	}
@@ -339,7 +339,7 @@ func goClasses(c goCase) (classes []string, nontrivial bool) {
 		case "number":
 			cl := numClass(cp.N)
 			classes = append(classes, cl)
-			nontrivial = cl != "num:smallint" || cp.N > 1000
+			nontrivial = cl != "num:smallint" || math.Abs(cp.N) >= 100
 		case "string":
 			switch {
 			case cp.S == "":
@@ -374,6 +374,21 @@ func goClasses(c goCase) (classes []string, nontrivial bool) {
 		} else if (sh == "slice" || sh == "map") && len(d.E) == 0 {
 			classes = append(classes, "top:empty-"+sh)
 		}
+		m15.Walk(d, func(x m15.D) {
+			if m15.Shape(x.T) != "scalar" {
+				return
+			}
+			switch c := m15.Counterpart(x); c.Kind {
+			case "number":
+				if numClass(c.N) != "num:smallint" || math.Abs(c.N) >= 100 {
+					empty = true
+				}
+			case "string":
+				if nonASCII(c.S) {
+					empty = true
+				}
+			}
+		})
 		nontrivial = depth >= 2 || empty
 	}
 	return classes, nontrivial
@@ -432,11 +447,11 @@ func checkGo(c goCase) harness.Outcome {
 		if mjErr != nil {
 			return fail("MarshalJSON failed (%v), encoding/json gives %s", mjErr, want)
 		}
-		diff := m15.SameJSON(want, mj)
+		diff := m15.SameJSON(want, mj, true)
 		if diff != "" && m15.Shape(scalarD.T) == "scalar" && m15.Underlying(scalarD.T) == "float32" {
 			// a float32 scalar may have been widened to float64 (the one documented normalisation)
 			w2, _ := json.Marshal(reflect.ValueOf(ref).Convert(reflect.TypeOf(float64(0))).Interface())
-			diff = m15.SameJSON(w2, mj)
+			diff = m15.SameJSON(w2, mj, true)
 		}
 		if diff != "" {
 			return fail("MarshalJSON gives %s, encoding/json on the original gives %s (%s)", mj, want, diff)
@@ -546,7 +561,7 @@ func checkGo(c goCase) harness.Outcome {
 
 var goFacet = harness.Register(&harness.Facet[goCase]{
 	Name: "go-roundtrip",
-	Rule: "rapid: a Go value described by a (type, literal) tree - bool; every int/uint width at 0, ±1, width bounds and neighbours, 2^53±1/±2, non-double 64-bit values, random; float32/float64 from the boundary pool incl. -0, subnormals, NaN, ±Inf; valid UTF-8 strings over ASCII/Latin-1/BMP (U+FFFD)/astral alphabets and numeric-looking strings; nil; named scalar types; pointers to scalars; []interface{} / map[string]interface{} nested to depth 3; typed slices, maps, arrays, structs (tagged, unexported, embedded fields) and pointers to them, nil vs empty - handed to otto along a drawn route (Otto.Set/Get, Object.Set/Get, Otto.ToValue, otto.ToValue, call argument, native function result); oracle: Export deep-equals a fresh materialisation (float32 may widen), To* equal the ES5 conversions of the JavaScript counterpart, MarshalJSON denotes encoding/json's tree, a script sees the counterpart element-wise (typeof, ===, sign of zero, length in UTF-16 units, for-in key count); non-trivial = boundary number, non-ASCII string, nil, or container of depth >= 2 / with an empty or nil part; distinct by case JSON",
+	Rule: "rapid: a Go value described by a (type, literal) tree - bool; every int/uint width at 0, ±1, width bounds and neighbours, 2^53±1/±2, non-double 64-bit values, random; float32/float64 from the boundary pool incl. -0, subnormals, NaN, ±Inf; valid UTF-8 strings over ASCII/Latin-1/BMP (U+FFFD)/astral alphabets and numeric-looking strings; nil; named scalar types; pointers to scalars; []interface{} / map[string]interface{} nested to depth 3; typed slices, maps, arrays, structs (tagged, unexported, embedded fields) and pointers to them, nil vs empty - handed to otto along a drawn route (Otto.Set/Get, Object.Set/Get, Otto.ToValue, otto.ToValue, call argument, native function result); oracle: Export deep-equals a fresh materialisation (float32 may widen), To* equal the ES5 conversions of the JavaScript counterpart, MarshalJSON denotes encoding/json's tree, a script sees the counterpart element-wise (typeof, ===, sign of zero, length in UTF-16 units, for-in key count); non-trivial = a number outside (-100,100) or not integral, a non-ASCII string, nil, or a container of depth >= 2 / with an empty or nil part / holding such a number or string; distinct by case JSON",
 	Quick:    6000,
 	Thorough: 110000,
 	Gen: func(t *rapid.T) goCase {
@@ -860,82 +875,39 @@ type exportCase struct {
 	J     m15.J  `json:"j"`
 }
 
-var (
-	tInt64   = reflect.TypeOf(int64(0))
-	tFloat64 = reflect.TypeOf(float64(0))
-	tString  = reflect.TypeOf("")
-	tBool    = reflect.TypeOf(false)
-	tAny     = reflect.TypeOf((*interface{})(nil)).Elem()
-	tMap     = reflect.TypeOf(map[string]interface{}(nil))
-)
+var tMap = reflect.TypeOf(map[string]interface{}(nil))
 
-// ottoExportType models how Export types what it returns (value.go export): arrays whose present
-// elements share kind, key kind and element kind become a typed slice of the LAST element's type.
-// clash is set when that slice type cannot hold an earlier element (finding C15-EXPORT-NESTED-PANIC).
-func ottoExportType(j m15.J, viaParse bool) (t reflect.Type, clash bool) {
-	switch j.K {
-	case "null", "undef", "hole":
-		return nil, false
-	case "bool":
-		return tBool, false
-	case "int":
-		if viaParse {
-			return tFloat64, false // only used to predict clashes: JSON.parse yields doubles
-		}
-		return tInt64, false
-	case "num":
-		return tFloat64, false
-	case "str":
-		return tString, false
-	case "obj":
+// mayClash over-approximates the inputs of finding C15-EXPORT-NESTED-PANIC: some array has at least two
+// present elements that are all arrays, one of which itself contains an array (the common slice type is
+// then decided by element *kinds* two levels up). The exclusion also requires the reflect.Set panic itself.
+func mayClash(j m15.J) bool {
+	if j.K == "arr" {
+		n, allArr, deep := 0, true, false
 		for _, e := range j.E {
-			if _, c := ottoExportType(e, viaParse); c {
-				clash = true
+			if e.K == "hole" {
+				continue
+			}
+			n++
+			if e.K != "arr" {
+				allArr = false
+				continue
+			}
+			for _, ee := range e.E {
+				if ee.K == "arr" {
+					deep = true
+				}
 			}
 		}
-		return tMap, clash
+		if n >= 2 && allArr && deep {
+			return true
+		}
 	}
-	type triple struct{ k, kk, ek reflect.Kind }
-	var first triple
-	var types []reflect.Type
-	state := 0
-	var last reflect.Type
 	for _, e := range j.E {
-		if e.K == "hole" {
-			continue
-		}
-		et, c := ottoExportType(e, viaParse)
-		if c {
-			clash = true
-		}
-		var tr triple
-		if et != nil {
-			tr.k = et.Kind()
-			switch tr.k {
-			case reflect.Map:
-				tr.kk = et.Key().Kind()
-				tr.ek = et.Elem().Kind()
-			case reflect.Slice:
-				tr.ek = et.Elem().Kind()
-			}
-		}
-		if state == 0 {
-			first, state = tr, 1
-		} else if state == 1 && tr != first {
-			state = 2
-		}
-		last = et
-		types = append(types, et)
-	}
-	if state != 1 || last == nil {
-		return reflect.SliceOf(tAny), clash
-	}
-	for _, et := range types {
-		if et != last {
-			clash = true
+		if mayClash(e) {
+			return true
 		}
 	}
-	return reflect.SliceOf(last), clash
+	return false
 }
 
 // sameExport compares what Export returned with the JSON-like data: null/undefined -> nil, boolean ->
@@ -1043,14 +1015,14 @@ func checkExport(c exportCase) harness.Outcome {
 	if j.HasHole() {
 		o.Classes = append(o.Classes, "has-hole")
 	}
-	_, clash := ottoExportType(j, c.Route == "parse")
+	clash := mayClash(j)
 	if clash {
-		o.Classes = append(o.Classes, "inner-types-differ")
+		o.Classes = append(o.Classes, "arrays-of-arrays-of-arrays")
 	}
 	var ex interface{}
 	p := guard(func() { ex, _ = r.Value.Export() })
 	switch {
-	case p != "" && clash && harness.Known(fNested):
+	case p != "" && clash && harness.Known(fNested) && strings.HasPrefix(p, "reflect.Set: value of type"):
 		o.Excluded = append(o.Excluded, fNested)
 	case p != "":
 		return fail("Export panicked: %s", p)
@@ -1074,7 +1046,7 @@ func checkExport(c exportCase) harness.Outcome {
 		if mjErr != nil {
 			return fail("MarshalJSON failed: %v", mjErr)
 		}
-		if diff := m15.SameJSON([]byte(want), mj); diff != "" {
+		if diff := m15.SameJSON([]byte(want), mj, false); diff != "" {
 			return fail("MarshalJSON gives %s, the data is %s (%s)", mj, want, diff)
 		}
 	}
@@ -1088,7 +1060,13 @@ var exportFacet = harness.Register(&harness.Facet[exportCase]{
 	Thorough: 70000,
 	Gen: func(t *rapid.T) exportCase {
 		route := rapid.SampledFrom([]string{"literal", "literal", "parse", "imperative"}).Draw(t, "route")
-		return exportCase{Route: route, J: m15.GenJ(t, 4, route == "parse", false)}
+		switch k := rapid.IntRange(0, 9).Draw(t, "shape"); {
+		case k == 0:
+			return exportCase{Route: route, J: m15.GenJ(t, 0, route == "parse", false)}
+		case k < 3:
+			return exportCase{Route: route, J: m15.GenJNested(t)}
+		}
+		return exportCase{Route: route, J: m15.GenJTop(t, 4, route == "parse")}
 	},
 	Check: checkExport,
 })
